@@ -491,4 +491,53 @@ theorem predd_spec (u : Nat) (hu : u < 18446744073709551616) :
     split_ifs <;> omega
   · intro h; simp [h]
 
+theorem mods32_eq (x y : Int) (hy0 : y ≠ 0) (hx : inInt32 x = true) (hy : inInt32 y = true)
+    (h : noOverflow (modsSteps x y) = true) : mods32 x y = some (mods x y) := by
+  rw [inInt32_iff] at hx hy
+  unfold noOverflow modsSteps at h
+  unfold mods32 mods neg32
+  split_ifs at h ⊢ with h1 h2 h2 <;>
+    simp only [List.all_cons, List.all_nil, Bool.and_true, Bool.and_eq_true, inInt32_iff] at h
+  · rw [mod32_some _ _ hy0 (by omega)]
+  · rw [wrap32_id (-y) (by rw [inInt32_iff]; omega), mod32_some _ _ (by omega) (by omega)]
+  · rw [wrap32_id (-x) (by rw [inInt32_iff]; omega), mod32_some _ _ (by omega) (by omega), Option.map_some,
+      wrap32_id _ (by rw [inInt32_iff]; omega)]
+  · rw [wrap32_id (-x) (by rw [inInt32_iff]; omega), wrap32_id (-y) (by rw [inInt32_iff]; omega),
+      mod32_some _ _ (by omega) (by omega), Option.map_some, wrap32_id _ (by rw [inInt32_iff]; omega)]
+
+section
+variable {α : Type} [Field α] [LinearOrder α] [IsStrictOrderedRing α] [FloorRing α]
+
+theorem floorSteps_inRange (toInt : α → Int) (h : IsTruncCast toInt) (x : α)
+    (hlo : -2147483647 ≤ x) (hhi : x < 2147483648) : noOverflow (floorSteps toInt x) = true := by
+  have habs : |x| < 2147483648 := by rw [abs_lt]; constructor <;> linarith
+  unfold noOverflow floorSteps
+  by_cases h0 : x ≥ 0
+  · rw [if_pos h0, h x habs, truncZ, if_pos h0]
+    simp only [List.all_cons, List.all_nil, Bool.and_true, inInt32_iff]
+    have h1 : (0 : Int) ≤ ⌊x⌋ := Int.floor_nonneg.mpr h0
+    have h2 : ⌊x⌋ < 2147483648 := by
+      rw [Int.floor_lt]; push_cast; exact hhi
+    omega
+  · rw [if_neg h0]
+    have hneg : x < 0 := not_le.mp h0
+    have hy : 0 ≤ -x := by linarith
+    rw [h (-x) (by rwa [abs_neg]), truncZ, if_pos hy]
+    have h1 : (0 : Int) ≤ ⌊-x⌋ := Int.floor_nonneg.mpr hy
+    have h2 : ⌊-x⌋ ≤ 2147483647 := by
+      rw [← Int.lt_add_one_iff, Int.floor_lt]; push_cast; linarith
+    have h3 : (if -x > ((⌊-x⌋ : Int) : α) then (1 : Int) else 0) = 1 → ⌊-x⌋ + 1 ≤ 2147483647 := by
+      intro hh
+      split_ifs at hh with hgt
+      · -- -x > floor and -x ≤ 2147483647 → floor < 2147483647
+        have : ((⌊-x⌋ : Int) : α) < ((2147483647 : Int) : α) := by push_cast; linarith
+        have := Int.cast_lt.mp this
+        omega
+      · omega
+    simp only [List.all_cons, List.all_nil, Bool.and_true, Bool.and_eq_true, inInt32_iff]
+    split_ifs at h3 ⊢ with hgt
+    · have := h3 rfl; omega
+    · omega
+end
+
 end ImathVerif.Fun
